@@ -15,7 +15,7 @@ func init() { register("C05", c05) }
 
 func c05(r *core.Run) {
 	p := r.P
-	r.Explain = "C05 decided structurally: (HASHAGREE) the hash fields of a signature are assigned only from the two hash functions, and every comparison with / index lookup by such a hash in both backends and in the matcher uses a value produced by the same function applied to the scanned topology; (KEYAGREE) index reader prefixes are format-prefixes of the writer keys over the same prefix variable, and the packed index value is decoded with the byte layout and positional order it was encoded with (same magic byte); (NAMEFREE) no name of the analysed function, its parameters or locals is read on the topology/hash path, callee names only, self-calls replaced by a name-free token, no Signature.String(); (INCLUSIVE) every admission comparison is inclusive (>=), necessary for a full-confidence self-match at threshold 1.0; (SELFCONF) the indexer draws required calls and string patterns from exactly the collections the matcher consults. Not decided: that the confidence of a self-match is numerically 1.0, the entropy pre-filter on real scores."
+	r.Explain = "C05 decided structurally: (HASHAGREE) the hash fields of a signature are assigned only from the two hash functions, and every comparison with / index lookup by such a hash in both backends and in the matcher uses a value produced by the same function applied to the scanned topology; (KEYAGREE) index reader prefixes are format-prefixes of the writer keys over the same prefix variable, and the packed index value is decoded with the byte layout and positional order it was encoded with (same magic byte); (NAMEFREE) no name of the analysed function, its parameters or locals is read on the topology/hash path, callee names only, self-calls replaced by a name-free token, no Signature.String(); (INCLUSIVE) every admission comparison is inclusive (>=), necessary for a full-confidence self-match at threshold 1.0; (SELFCONF) the indexer draws required calls and string patterns from exactly the collections the matcher consults. Not decided: that the confidence of a self-match is numerically 1.0, the entropy pre-filter on real scores. (SELFCONF, sharpened) a stored string pattern is the literal or a trimmed form of it (no byte slicing unless the function works on rune boundaries)."
 	r.Undecided = []string{"confidence of a self-match equals exactly 1.0 (arithmetic)", "entropy pre-filter on concrete scores", "renaming of *other* package-level functions that the analysed function calls (callee names are part of the call profile by design)"}
 
 	// ---- HASHAGREE
